@@ -166,6 +166,7 @@ fn de_err(e: DeError) -> DeErr {
         DeError::KeyNotRead => "KeyNotRead",
         DeError::UnexpectedStart(_) => "UnexpectedStart",
         DeError::UnexpectedEof => "UnexpectedEof",
+        #[cfg(feature = "ovl")]
         DeError::TooManyEvents(_) => "TooManyEvents",
     };
     DeErr {
@@ -193,7 +194,10 @@ fn de_str_impl<T: DeserializeOwned + Val>(s: &str, limit: Option<usize>) -> DeRe
         Some(l) => l,
     };
     let mut de = Deserializer::from_str(s);
+    #[cfg(feature = "ovl")]
     de.event_buffer_size(NonZeroUsize::new(l));
+    #[cfg(not(feature = "ovl"))]
+    let _ = (l, NonZeroUsize::new(1));
     T::deserialize(&mut de).map(|v| Box::new(v) as Box<dyn Val>).map_err(de_err)
 }
 fn de_reader_impl<T: DeserializeOwned + Val>(r: ChunkedRead) -> DeResult {
@@ -810,6 +814,10 @@ pub struct Nums {
     pub c: i128,
     #[serde(rename = "@a_f32")]
     pub d: f32,
+    #[serde(rename = "@a_u128")]
+    pub e: u128,
+    #[serde(rename = "@a_bigs")]
+    pub f: Vec<u128>,
     pub t_i16: i16,
     pub t_u32: u32,
     pub t_i64: i64,
@@ -823,6 +831,8 @@ fn gen_nums(r: &mut Rng) -> Nums {
         b: gen_i(r, &[u64::MAX, 0], |r| r.next()),
         c: gen_i(r, &[i128::MIN, i128::MAX], |r| r.next() as i128),
         d: gen_f32(r),
+        e: gen_i(r, &[u128::MAX, i128::MAX as u128 + 1, 0], |r| (r.next() as u128) << 64 | r.next() as u128),
+        f: (0..gen_len(r).min(3)).map(|_| gen_i(r, &[u128::MAX, i128::MAX as u128 + 1], |r| (r.next() as u128) << 70)).collect(),
         t_i16: gen_i(r, &[i16::MIN, i16::MAX], |r| r.next() as i16),
         t_u32: gen_i(r, &[u32::MAX, 0], |r| r.next() as u32),
         t_i64: gen_i(r, &[i64::MIN, i64::MAX], |r| r.next() as i64),
@@ -1266,6 +1276,62 @@ fn gen_opttextel(r: &mut Rng) -> OptTextEl {
     }
 }
 
+
+/// A map whose hand-written `Serialize` uses the two-step `serialize_key` / `serialize_value`
+/// protocol (what a transcoder or a non-derive impl does) instead of `serialize_entry`
+#[derive(Debug, PartialEq, Clone, Default, Deserialize)]
+#[serde(transparent)]
+pub struct KvMap(pub BTreeMap<String, String>);
+impl Serialize for KvMap {
+    fn serialize<S: serde::Serializer>(&self, s: S) -> Result<S::Ok, S::Error> {
+        use serde::ser::SerializeMap;
+        let mut m = s.serialize_map(Some(self.0.len()))?;
+        for (i, (k, v)) in self.0.iter().enumerate() {
+            if i % 3 == 2 {
+                m.serialize_entry(k, v)?;
+            } else {
+                m.serialize_key(k)?;
+                m.serialize_value(v)?;
+            }
+        }
+        m.end()
+    }
+}
+/// A string that serializes itself through `Serializer::collect_str` (what `Display`-based impls do)
+#[derive(Debug, PartialEq, Clone, Default, Deserialize)]
+#[serde(transparent)]
+pub struct Shown(pub String);
+impl Serialize for Shown {
+    fn serialize<S: serde::Serializer>(&self, s: S) -> Result<S::Ok, S::Error> {
+        s.collect_str(&self.0)
+    }
+}
+/// T25 — values that reach the serializer through the less common trait methods
+#[derive(Serialize, Deserialize, Debug, PartialEq, Clone)]
+#[serde(rename = "s_protocols")]
+pub struct Protocols {
+    #[serde(rename = "@a_shown")]
+    pub a: Shown,
+    #[serde(rename = "@a_shown_list")]
+    pub l: Vec<Shown>,
+    pub t_shown: Shown,
+    pub k_kv: KvMap,
+    pub x_shown: TextAny<Shown>,
+}
+fn gen_protocols(r: &mut Rng) -> Protocols {
+    let mut kv = BTreeMap::new();
+    for _ in 0..gen_len(r).min(6) {
+        kv.insert(gen_key(r), gen_string(r, Pos::Text));
+    }
+    Protocols {
+        a: Shown(gen_string(r, Pos::Attr)),
+        l: (0..gen_len(r).min(4)).map(|_| Shown(gen_string(r, Pos::Item))).collect(),
+        t_shown: Shown(gen_string(r, Pos::Text)),
+        k_kv: KvMap(kv),
+        x_shown: TextAny { k: r.next() as u8, t: Shown(gen_string(r, Pos::MixedText)) },
+    }
+}
+
 pub fn family() -> Vec<TypeOps> {
     vec![
         ops!(Attrs, "Attrs", gen = gen_attrs, rows = &["attribute:string", "attribute:number", "attribute:bool", "attribute:char", "attribute:unit-enum", "attribute:option-skipped", "attribute:xs-list"]),
@@ -1296,6 +1362,7 @@ pub fn family() -> Vec<TypeOps> {
         ops!(TextFirst, "TextFirst", gen = gen_textfirst, rows = &["$text-followed-by-element-lists"]),
         ops!(HasMixed2, "HasMixed2", gen = gen_mixed2, rows = &["$value:mixed-list-whose-elements-have-text-content"]),
         ops!(OptTextEl, "OptTextEl", gen = gen_opttextel, rows = &["named-children-and-optional-$text", "list:elements-unit"]),
+        ops!(Protocols, "Protocols", gen = gen_protocols, rows = &["serializer-protocol:collect_str", "serializer-protocol:serialize_key+serialize_value"]),
     ]
 }
 
@@ -1490,6 +1557,13 @@ fn gen_varkinds(r: &mut Rng) -> VarKinds {
         _ => VarKinds::Txt(gen_string(r, Pos::Attr)),
     }
 }
+#[derive(Serialize, Deserialize, Debug, PartialEq, Clone)]
+pub enum ShownVar {
+    #[serde(rename = "$text")]
+    Txt(Shown),
+    #[serde(rename = "t_e")]
+    E(Shown),
+}
 /// enums whose `$text` variant is a unit / tuple / struct variant (C07 targets)
 #[derive(Serialize, Deserialize, Debug, PartialEq, Clone)]
 pub enum TextUnitVar {
@@ -1599,6 +1673,93 @@ impl<'de> Deserialize<'de> for ByteBuf {
         }
         d.deserialize_byte_buf(V)
     }
+}
+
+
+// ---------------------------------------------------------------------------
+// documents in a legacy encoding with names outside ASCII (C07, C17)
+// ---------------------------------------------------------------------------
+
+/// attribute names of 1..8 Cyrillic letters, an element with a Cyrillic name and mixed content
+#[derive(Serialize, Deserialize, Debug, PartialEq, Clone, Default)]
+#[serde(rename = "корень")]
+pub struct CyrDoc {
+    #[serde(rename = "@а", default)]
+    pub a1: Option<String>,
+    #[serde(rename = "@аб", default)]
+    pub a2: Option<String>,
+    #[serde(rename = "@абв", default)]
+    pub a3: Option<String>,
+    #[serde(rename = "@абвг", default)]
+    pub a4: Option<String>,
+    #[serde(rename = "@абвгд", default)]
+    pub a5: Option<String>,
+    #[serde(rename = "@абвгде", default)]
+    pub a6: Option<String>,
+    #[serde(rename = "@абвгдеж", default)]
+    pub a7: Option<String>,
+    #[serde(rename = "@xабвгдежз", default)]
+    pub a8: Option<String>,
+    #[serde(rename = "значение", default)]
+    pub name: String,
+    #[serde(rename = "$value", default)]
+    pub rest: Vec<CyrItem>,
+}
+#[derive(Serialize, Deserialize, Debug, PartialEq, Clone)]
+pub enum CyrItem {
+    #[serde(rename = "элемент")]
+    Item(String),
+    #[serde(rename = "э")]
+    Short,
+    #[serde(rename = "$text")]
+    Text(String),
+}
+/// (UTF-8 document without declaration, the same document with a declaration naming `label`)
+pub fn gen_cyr_doc(r: &mut Rng, label: &str) -> (String, String, CyrDoc) {
+    let word = |r: &mut Rng| -> String { (0..1 + r.below(6)).map(|_| *r.pick(&['д', 'о', 'м', 'я', 'ж', 'a', '1', 'щ'])).collect() };
+    let opt = |r: &mut Rng| -> Option<String> { if r.below(3) == 0 { Some((0..1 + r.below(6)).map(|_| *r.pick(&['д', 'о', 'м', 'я', 'ж', 'a', '1', 'щ'])).collect()) } else { None } };
+    let v = CyrDoc {
+        a1: opt(r),
+        a2: opt(r),
+        a3: opt(r),
+        a4: opt(r),
+        a5: opt(r),
+        a6: opt(r),
+        a7: opt(r),
+        a8: opt(r),
+        name: word(r),
+        rest: {
+            let mut items = Vec::new();
+            for _ in 0..r.below(4) {
+                let last_text = matches!(items.last(), Some(CyrItem::Text(_)));
+                items.push(match r.below(3) {
+                    0 => CyrItem::Item(word(r)),
+                    1 => CyrItem::Short,
+                    _ if last_text => CyrItem::Short,
+                    _ => CyrItem::Text(word(r)),
+                });
+            }
+            items
+        },
+    };
+    // None attributes are not written
+    let mut body = String::from("<корень");
+    for (k, a) in [("а", &v.a1), ("аб", &v.a2), ("абв", &v.a3), ("абвг", &v.a4), ("абвгд", &v.a5), ("абвгде", &v.a6), ("абвгдеж", &v.a7), ("xабвгдежз", &v.a8)] {
+        if let Some(x) = a {
+            body.push_str(&format!(" {}=\"{}\"", k, x));
+        }
+    }
+    body.push_str(&format!("><значение>{}</значение>", v.name));
+    for it in &v.rest {
+        match it {
+            CyrItem::Item(x) => body.push_str(&format!("<элемент>{}</элемент>", x)),
+            CyrItem::Short => body.push_str("<э/>"),
+            CyrItem::Text(x) => body.push_str(x),
+        }
+    }
+    body.push_str("</корень>");
+    let declared = format!("<?xml version=\"1.0\" encoding=\"{}\"?>{}", label, body);
+    (body, declared, v)
 }
 
 /// Extra deserialization targets for the totality property (C07); no generators.
@@ -2005,6 +2166,14 @@ pub fn ser_only() -> Vec<SerOnly> {
         so!("ElemAny<Vec<char>>", |r: &mut Rng| ElemAny { t_v: (0..r.below(4)).map(|_| gen_char(r, Pos::Attr)).collect::<Vec<char>>(), k: r.next() as u8 }),
         so!("MixedUnitText", |r: &mut Rng| ValAny { k: r.next() as u8, v: (gen_varkinds(r), if r.bool() { TextUnitVar::T } else { TextUnitVar::A }, gen_varkinds(r), TextUnitVar::T, gen_varkinds(r)) }),
         so!("MixedUnits", |r: &mut Rng| ValAny { k: r.next() as u8, v: (gen_string(r, Pos::Attr), (), UnitStruct, gen_varkinds(r), (), gen_string(r, Pos::Attr)) }),
+        so!("ShownHostile", |r: &mut Rng| Protocols {
+            a: Shown(gen_string(r, Pos::Attr)),
+            l: (0..r.below(3)).map(|_| Shown(gen_string(r, Pos::Attr))).collect(),
+            t_shown: Shown(gen_string(r, Pos::Attr)),
+            k_kv: KvMap(gen_anymap(r)),
+            x_shown: TextAny { k: r.next() as u8, t: Shown(gen_string(r, Pos::Attr)) },
+        }),
+        so!("ValAny<Vec<ShownVar>>", |r: &mut Rng| ValAny { k: r.next() as u8, v: (0..r.below(4)).map(|_| if r.bool() { ShownVar::Txt(Shown(gen_string(r, Pos::Attr))) } else { ShownVar::E(Shown(gen_string(r, Pos::Attr))) }).collect::<Vec<ShownVar>>() }),
         so!("VarKinds", |r: &mut Rng| gen_varkinds(r)),
         so!("Vec<VarKinds>", |r: &mut Rng| (0..r.below(4)).map(|_| gen_varkinds(r)).collect::<Vec<VarKinds>>()),
     ]
